@@ -185,6 +185,9 @@ func (this *Decoder) getEncodedData(correctedBits []bool) (string, error) {
 					if e != nil {
 						return string(result), gozxing.WrapFormatException(e)
 					}
+					if charsetECI == nil {
+						return string(result), gozxing.NewFormatException("unregistered ECI %v", eci)
+					}
 					encoding = charsetECI.GetCharset()
 				}
 				// Go back to whatever mode we had been in
